@@ -252,6 +252,9 @@ def child_salt(salt, i):
     return salt * 7 + i + 1
 
 
+LEAF_HOOK = None  # C12 sets this to freeze every leaf BEFORE it is handed to a combinator's constructor
+
+
 def build(spec, salt=0, level=0, seed=0):
     """Build the real flowjax bijection. ``salt`` may be a traced int32 scalar."""
     import equinox as eqx
@@ -341,7 +344,8 @@ def build(spec, salt=0, level=0, seed=0):
         leaf = B.BlockAutoregressiveNetwork(key(), dim=spec["dim"], cond_dim=spec.get("cond"), depth=spec.get("depth", 1),
                                             block_dim=spec.get("bd", 2), **kw)
     if leaf is not None:
-        return _perturb(leaf, level, sf)
+        out = _perturb(leaf, level, sf)
+        return LEAF_HOOK(out) if LEAF_HOOK is not None else out
 
     # ---- combinators
     def sub(i, s):
